@@ -12,6 +12,9 @@
 (*                  name, a keybinding value, a new keybinding)            *)
 (*   Print(h, fmt)  to_wbem_uri of a previously returned object; the text  *)
 (*                  becomes available for later Parse steps                *)
+(*   Observe(h)     (before and after every Mutate) h is printed, the text *)
+(*                  parsed, a new equal path printed (canonical): the laws *)
+(*                  of WbemUri for the CURRENT value of h                  *)
 (*                                                                         *)
 (* Requirement machine (HInit/HFails/HApply, event style; the abstract     *)
 (* state is the sequence of returned objects as VALUES (trees) and the     *)
